@@ -908,6 +908,269 @@ def replay_declared(f) -> bool:
     return not fails
 
 
+# ----------------------------------------------------------------------------- derivative ENTRIES that are vector nodes over singular vectors
+# (checklist: the entry itself, not only the differentiated expression).  Through the product rule the partial derivative of
+# O(y, R(g(x))) w.r.t. the scalar y IS the reduction node R(g(x)) (c @ g, g.sum(), g·h, ‖g‖, …) over a VectorExpression whose
+# elements are singular (1/x_i, log x_i, x_i**-k, sqrt x_i): an entry that looks `affine` / `constant` to a static classification
+# (LinearCombination, a sum, a scaled variable) and still evaluates to ±Inf / NaN ON the singular set.  Family = elementwise
+# singular g × reduction × outer combination with y × variable layout (full / permuted / sparse) × callable
+# (compile_gradient, compile_jacobian one row / several rows, the callables a Problem hands to SciPy) × points on the singular set.
+# Oracle: hand-written NumPy values of every partial derivative (value of the reduction for the y entry, chain rule for the x
+# entries): every entry finite; finite NumPy value → unchanged; ±Inf → ±1e16; NaN → 0 for the y entry (for an x entry whose NumPy
+# value is NaN the class depends on the algebraic form 0·Inf / Inf − Inf is written in: only finiteness is required there).
+
+VE_C = np.array([1.0, 2.0, -3.0])
+VE_C2 = np.array([0.5, 4.0, 1.5])
+
+
+def ve_elementwise():
+    """name → (optyx elementwise function, NumPy g, NumPy g')"""
+    from optyx.core.functions import log, sqrt
+
+    return [
+        ("1/x", lambda v: 1.0 / v, lambda x: 1.0 / x, lambda x: -1.0 / (x * x)),
+        ("log", lambda v: log(v), lambda x: np.log(x), lambda x: 1.0 / x),
+        ("x**-2", lambda v: v ** -2.0, lambda x: x ** -2.0, lambda x: -2.0 * x ** -3.0),
+        ("sqrt", lambda v: sqrt(v), lambda x: np.sqrt(x), lambda x: 0.5 / np.sqrt(x)),
+        ("x**-0.5", lambda v: v ** -0.5, lambda x: x ** -0.5, lambda x: -0.5 * x ** -1.5),
+        ("c/x+x", lambda v: 2.5 / v + v, lambda x: 2.5 / x + x, lambda x: -2.5 / (x * x) + 1.0),
+    ]
+
+
+def ve_reductions():
+    """name → (node builder from the optyx vectors G, H; NumPy value r(g, h); NumPy ∂r/∂g_i, ∂r/∂h_i)"""
+    from optyx.core import vectors as Vc
+
+    def norm(g):
+        return np.sqrt(np.sum(g * g))
+
+    return [
+        ("c@G", lambda G, H: VE_C @ G, lambda g, h: float(np.dot(VE_C, g)), lambda g, h: (VE_C, None)),
+        ("LinearCombination(c2,G)", lambda G, H: Vc.LinearCombination(VE_C2, G), lambda g, h: float(np.dot(VE_C2, g)), lambda g, h: (VE_C2, None)),
+        ("G.sum()", lambda G, H: G.sum(), lambda g, h: float(np.sum(g)), lambda g, h: (np.ones(len(g)), None)),
+        ("G.dot(H)", lambda G, H: G.dot(H), lambda g, h: float(np.sum(g * h)), lambda g, h: (h, g)),
+        ("DotProduct(G,G)", lambda G, H: Vc.DotProduct(G, G), lambda g, h: float(np.sum(g * g)), lambda g, h: (2.0 * g, None)),
+        ("L2Norm(G)", lambda G, H: Vc.L2Norm(G), lambda g, h: float(norm(g)), lambda g, h: (g / norm(g), None)),
+        ("c@G-c2@H", lambda G, H: VE_C @ G - VE_C2 @ H, lambda g, h: float(np.dot(VE_C, g) - np.dot(VE_C2, h)), lambda g, h: (VE_C, -VE_C2)),
+    ]
+
+
+def ve_outers():
+    """name → (expression of (y, r); NumPy ∂/∂y; NumPy ∂/∂r): the y entry is the reduction node, a sum / difference / scalar
+    multiple of it, or the node next to a plain variable"""
+    return [
+        ("y*r", lambda y, r: y * r, lambda y, r: r, lambda y, r: y),
+        ("r*y", lambda y, r: r * y, lambda y, r: r, lambda y, r: y),
+        ("y+y*r", lambda y, r: y + y * r, lambda y, r: 1.0 + r, lambda y, r: y),
+        ("2.5*(y*r)-y", lambda y, r: 2.5 * (y * r) - y, lambda y, r: 2.5 * r - 1.0, lambda y, r: 2.5 * y),
+        ("-(y*r)", lambda y, r: -(y * r), lambda y, r: -r, lambda y, r: -y),
+        ("y*r+y*y", lambda y, r: y * r + y * y, lambda y, r: r + 2.0 * y, lambda y, r: y),
+    ]
+
+
+VE_LAYOUTS = [("full", [0, 1, 2, 3]), ("x-first", [1, 2, 3, 0]), ("perm", [2, 0, 3, 1]), ("sparse", [0, 4, 1, 2, 3]), ("sparse-mid", [1, 2, 4, 0, 3])]
+VE_CHANNELS = ("grad", "jac", "jac2", "jac2-first", "scipy")
+
+
+def ve_points(rng):
+    """(y, x0, x1, x2): x ON the singular set (one / two / all coordinates 0, with non-zero coefficients), outside the domain
+    (−1: log, sqrt, fractional powers → NaN), y of either sign and 0, + regular points.  No −0.0 (sign of zero: ASSUMPTIONS)"""
+    pts = []
+    ys = [2.0, -3.0, 1.25]
+    for p in range(3):
+        x = [BASE[(i + p) % len(BASE)] for i in range(3)]
+        x[p] = 0.0
+        pts.append([ys[p]] + x)
+    pts.append([-0.5, 0.0, 1.75, 0.0])
+    pts.append([1.25, 0.0, 0.0, 0.0])
+    pts.append([0.0, 0.0, 0.375, 2.25])
+    x = [BASE[(i + 4) % len(BASE)] for i in range(3)]
+    x[rng.randrange(3)] = -1.0
+    pts.append([rng.choice([2.0, -0.5])] + x)
+    x = [BASE[(i + 5) % len(BASE)] for i in range(3)]
+    x[rng.randrange(3)] = 0.0
+    x[rng.randrange(3)] = rng.choice([0.0, 1e-150, 1.0])
+    pts.append([rng.choice([-2.0, 0.5, 1.0])] + x)
+    pts.append([0.75, 1.25, 0.625, 2.75])
+    pts.append([rng.choice([-2.0, 0.5, 1.0, 2.0])] + [rng.choice(BASE + [1.0, 2.0, 0.5]) for _ in range(3)])
+    return pts
+
+
+def ve_build(gname, hname, rname, oname, lname):
+    """fresh optyx objects of one member + its NumPy oracle.  Returns (e, V, names, direct) with direct(point by name) → the
+    unsanitised partial derivatives in V order"""
+    from optyx import Variable, VectorVariable
+    from optyx.core import vectors as Vc
+
+    elem = {n: t for n, *t in ve_elementwise()}
+    red = {n: t for n, *t in ve_reductions()}
+    out = {n: t for n, *t in ve_outers()}
+    gf, g_np, dg_np = elem[gname]
+    hf, h_np, dh_np = elem[hname] if hname != "2x+1" else (lambda v: 2.0 * v + 1.0, lambda x: 2.0 * x + 1.0, lambda x: 2.0 + 0.0 * x)
+    y, x, extra = Variable("ve_y"), VectorVariable("ve_x", 3), Variable("ve_a")
+    G = Vc.VectorExpression([gf(v) for v in x])
+    H = Vc.VectorExpression([hf(v) for v in x])
+    rb, r_np, dr_np = red[rname]
+    ob, dy_np, dr_outer = out[oname]
+    e = ob(y, rb(G, H))
+    pool = [y, x[0], x[1], x[2], extra]
+    V = [pool[i] for i in dict(VE_LAYOUTS)[lname]]
+
+    def direct(yv, xv):
+        """[∂/∂y, ∂/∂x0, ∂/∂x1, ∂/∂x2, ∂/∂extra] by hand, NumPy special-value semantics"""
+        xv = np.array(xv, dtype=float)
+        with np.errstate(all="ignore"):
+            g, h, dg, dh = g_np(xv), h_np(xv), dg_np(xv), dh_np(xv)
+            r = r_np(g, h)
+            rg, rh = dr_np(g, h)
+            dx = dr_outer(yv, r) * (rg * dg + rh * dh if rh is not None else rg * dg)   # rh None: the reduction does not use H
+            return [float(dy_np(yv, r))] + [float(v) for v in dx] + [0.0]
+
+    def value(yv, xv):
+        xv = np.array(xv, dtype=float)
+        return r_np(g_np(xv), h_np(xv))
+
+    return e, V, [v.name for v in pool], direct, value, (y, x, extra)
+
+
+def ve_callables(channel, e, V, objs):
+    """[(name, callable, rows, sign, V order)]; rows: per returned row 'e' (the member) or 'lin' (the regular row 2y + x0)"""
+    import optyx.core.autodiff as AD
+    import optyx.core.compiler as CC
+
+    y, x, _ = objs
+    lin = 2.0 * y + x[0]
+    if channel == "grad":
+        return [("compile_gradient", CC.compile_gradient(e, V), ["e"], V)]
+    if channel == "jac":
+        return [("compile_jacobian([e])", AD.compile_jacobian([e], V), ["e"], V)]
+    if channel == "jac2":
+        return [("compile_jacobian([e, lin, e])", AD.compile_jacobian([e, lin, e], V), ["e", "lin", "e"], V)]
+    if channel == "jac2-first":
+        return [("compile_jacobian([lin, e])", AD.compile_jacobian([lin, e], V), ["lin", "e"], V)]
+    pc = _problem_callables(e, "minimize", False)
+    if pc is None:
+        return []
+    _, PV, fns = pc
+    return [(nm, fn, ["±e"] if nm.startswith("constraint") else ["e"], PV) for nm, fn in fns]
+
+
+def ve_check(member, channel, pts, nontrivial=None):
+    """one member × one channel at every point.  Returns (fails, evaluations)"""
+    gname, hname, rname, oname, lname = member
+    built = J.grab(lambda: ve_build(*member))
+    if isinstance(built, str):
+        return [], 0
+    e, V, names, direct, value, objs = built
+    # the member must mean what the NumPy oracle assumes: function value at a regular point
+    reg = [0.75, 1.25, 0.625, 2.75]
+    val = J.grab(lambda: float(np.asarray(e.evaluate({n: a for n, a in zip(names, reg + [0.5])}))))
+    fns = J.grab(lambda: ve_callables(channel, e, V, objs))
+    if isinstance(val, str) or isinstance(fns, str):
+        return [], 0
+    lin_row = {names[0]: 2.0, names[1]: 1.0}
+    fails, n = [], 0
+
+    def fail(what, xs, **more):
+        d = {"what": what, "kind": "vector-entry", "member": list(member), "channel": channel, "x": [float(a) for a in xs],
+             "point_order": ["y", "x0", "x1", "x2"], "expr_repr": repr(e)[:300]}
+        d.update(more)
+        return d
+
+    for nm, fn, rows, FV in fns:
+        order = [v.name for v in FV]
+        if not set(order) <= set(names):
+            continue
+        sign = None
+        for xs in [reg] + list(pts):
+            n += 1
+            point = dict(zip(names, list(xs) + [0.5]))
+            got = _call(fn, [point[k] for k in order])
+            if isinstance(got, str):
+                fails.append(fail(f"derivative callable raised {got[6:]} at a finite point", xs, callable=nm, V_names=order))
+                break
+            raw_all = dict(zip(names, direct(xs[0], xs[1:])))
+            want_raw = []
+            for row in rows:
+                want_raw += [lin_row.get(k, 0.0) for k in order] if row == "lin" else [raw_all[k] for k in order]
+            if len(got) != len(want_raw):
+                fails.append(fail("derivative callable returned an array of the wrong size", xs, callable=nm, got=got, V_names=order))
+                break
+            if nontrivial is not None and not all(math.isfinite(r) for r in want_raw):
+                nontrivial.add(("vector-entry",) + tuple(member) + (channel, nm, tuple(J.num_tok(a) for a in xs)))
+            if not all(math.isfinite(v) for v in got):
+                fails.append(fail("derivative callable returned a non-finite entry at a finite point (an entry that is a vector node over a "
+                                  "VectorExpression with singular elements was not sanitised)", xs, callable=nm, got=got,
+                                  unsanitised_numpy=[str(r) for r in want_raw], V_names=order))
+                break
+            if rows == ["±e"]:
+                # SciPy's sign convention of the constraint (fun ≥ 0) is read off at the regular point
+                if sign is None:
+                    fin = [(g_, r_) for g_, r_ in zip(got, want_raw) if r_ != 0.0]
+                    sign = 1.0 if all(J.close(g_, r_, rtol=1e-9) for g_, r_ in fin) else -1.0
+                want_raw = [sign * r for r in want_raw]
+            tol = cancel_tol(got)
+            bad = None
+            for idx, (g_, r_) in enumerate(zip(got, want_raw)):
+                is_y = order[idx % len(order)] == names[0]
+                if math.isnan(r_) and not is_y:
+                    continue
+                if math.isfinite(r_) and abs(r_) >= 1e15:
+                    continue   # overflow-sized regular value next to the threshold: not a singular point (ASSUMPTIONS)
+                if not same_class(g_, expected_from_raw(r_), tol):
+                    bad = idx
+                    break
+            if bad is not None:
+                fails.append(fail("entry is not the sanitised value of the hand-written NumPy derivative (finite → unchanged, NaN → 0, ±Inf → ±1e16)",
+                                  xs, callable=nm, entry=bad, variable=order[bad % len(order)], unsanitised_numpy=str(want_raw[bad]),
+                                  got=got, want=[expected_from_raw(r) for r in want_raw], V_names=order))
+                break
+        if fails:
+            break
+    return fails, n
+
+
+def vector_entry_failures(rng, full, nontrivial=None, stop_at_first=False):
+    """the family.  quick tier: every (g, reduction, outer) triple on a rotating layout; every second triple under all five
+    channels, the others under two rotating ones (so every (g, reduction) pair meets every channel and every layout);
+    full: the product"""
+    gs = [n for n, *_ in ve_elementwise()]
+    rs = [n for n, *_ in ve_reductions()]
+    os_ = [n for n, *_ in ve_outers()]
+    fails, n_evals, hist = [], 0, {"vector-entry:cases": 0}
+    off = rng.randrange(len(VE_LAYOUTS))
+    pts = ve_points(rng)
+    for gi, g in enumerate(gs):
+        for ri, r in enumerate(rs):
+            for oi, o in enumerate(os_):
+                h = "2x+1" if (gi + oi) % 2 == 0 else gs[(gi + 1 + oi) % len(gs)]
+                lays = [l for l, _ in VE_LAYOUTS] if full else [VE_LAYOUTS[(gi + ri + oi + off) % len(VE_LAYOUTS)][0]]
+                for lname in lays:
+                    if full:
+                        chans = VE_CHANNELS
+                    elif (gi + ri + oi + off) % 3 == 0:
+                        chans = VE_CHANNELS
+                    else:
+                        k = gi + 2 * oi + ri
+                        chans = (VE_CHANNELS[k % 5], VE_CHANNELS[(k + 2) % 5])
+                    for ch in chans:
+                        fs, k = ve_check((g, h, r, o, lname), ch, pts if full else pts[(gi + oi) % 2::2] + pts[:1], nontrivial)
+                        n_evals += k
+                        hist["vector-entry:cases"] += 1
+                        hist[f"vector-entry:{ch}"] = hist.get(f"vector-entry:{ch}", 0) + 1
+                        fails += fs
+                        if fails and stop_at_first:
+                            return fails, n_evals, hist
+    return fails, n_evals, hist
+
+
+def replay_vector_entry(f) -> bool:
+    fails, _ = ve_check(tuple(f["member"]), f["channel"], [f["x"]])
+    for g in fails:
+        print("FAIL:", g)
+    return not fails
+
+
 def run(ctx) -> core.Report:
     rng = ctx["rng"]
     thorough = ctx["tier"] == "thorough" or ctx["escalate"]
@@ -1081,6 +1344,11 @@ def run(ctx) -> core.Report:
     rep.oracle_failures.extend(dfails)
     rep.evaluations += d_evals
     rep.histogram.update(dhist)
+    # derivative entries that are vector nodes over singular VectorExpressions (oracle on the real code: hand-written NumPy)
+    vfails, v_evals, vhist = vector_entry_failures(rng, thorough, nontrivial=rep.nontrivial)
+    rep.oracle_failures.extend(vfails[:20])
+    rep.evaluations += v_evals
+    rep.histogram.update(vhist)
 
     for tag, g, point, idx in ev_metas:
         real = J.grab(lambda: float(np.asarray(g.evaluate(point))))
@@ -1143,6 +1411,11 @@ def search(ctx, rep):
         dfails, _, _ = declared_failures(rng, True, stop_at_first=True)
         if dfails:
             return dfails[0]
+    # (3) the vector-entry family in full
+    if not (ctx.get("escalate") or ctx.get("tier") == "thorough"):
+        vfails, _, _ = vector_entry_failures(rng, True, stop_at_first=True)
+        if vfails:
+            return vfails[0]
     for rnd in range(3):
         for tag, kind, e, V, own_pts in closure_cases(rng, True):
             if V:
@@ -1182,6 +1455,8 @@ def replay(payload) -> bool:
         return ok
     if f.get("kind") == "declared-bounds":
         return replay_declared(f)
+    if f.get("kind") == "vector-entry":
+        return replay_vector_entry(f)
     if "exprs" not in f and "array" not in f:
         print("no serialisable expression (outside the Lean syntax):", {k: f[k] for k in f if k not in ("got", "want")})
         return False
